@@ -158,7 +158,7 @@ class _MoashaNp(NumpyShim):
 
 
 def h_moasha(sym, T=4, E=6, W=4, priority="nondominated", modes=("min", "min"), rf=2, max_t=4, grace=1, B=1,
-             fixed_order=False, triple=None):
+             fixed_order=False, triple=None, complete_first=False):
     import syne_tune.optimizer.schedulers.multiobjective.moasha as MO
     import syne_tune.optimizer.schedulers.multiobjective.non_dominated_priority as ND
     from syne_tune.optimizer.schedulers.multiobjective.multiobjective_priority import (
@@ -225,9 +225,19 @@ def h_moasha(sym, T=4, E=6, W=4, priority="nondominated", modes=("min", "min"), 
             res = {"r": r}
             for j, m in enumerate(metrics):
                 res[m] = vec[j]
-            d = sch.on_trial_result(trials[tid], res)
             mapped = [v if modes[j] == "min" else -v for j, v in enumerate(vec)]
             b = bracket[tid]
+            if complete_first and tid == 0 and r == 1:
+                # the script of trial 0 ends after one epoch and its only result reaches the scheduler through
+                # on_trial_complete (no on_trial_result before): it is recorded at the rung like any other result
+                sch.on_trial_complete(trials[tid], res)
+                if r in milestones(b):
+                    rung.setdefault((b, r), []).append((tid, mapped))
+                running.remove(tid)
+                sym.goal("completed-without-report")
+                sym.event("t0 completes with its first result")
+                continue
+            d = sch.on_trial_result(trials[tid], res)
             expect = None
             if r >= max_t:
                 expect = {"STOP"}
@@ -330,6 +340,12 @@ def obligations(tier):
                           dict(priority=prio, modes=list(modes), T=4, E=5, W=4, rf=3, max_t=9),
                           bounds=dict(T=4, W=4, reports=5, rf=3, max_t=9, D=2),
                           goals=("end",), split=(("c4", (0, 1, 2, 3)), ("c5", (0, 1, 2, 3))), budget_s=2400, may_be_incomplete=True))
+    # a result that reaches the scheduler only through on_trial_complete; per-metric modes differ
+    for modes in (("max", "min"), ("min", "max")):
+        obs.append(Ob("C19.c[moasha,fixed,%s,first-result-by-completion]" % "/".join(modes), "props.c19:h_moasha",
+                      dict(priority="fixed", modes=list(modes), T=3, E=3, W=3, rf=2, max_t=4, fixed_order=True, complete_first=True),
+                      bounds=dict(T=3, W=3, reports=3, rf=2, max_t=4, D=2, order="t0 (completes), t1, t2 each reporting level 1 once"),
+                      goals=("completed-without-report", "stop-at-rung", "continue-at-rung", "end"), split=(("s0", (0, 1)), ("s1", (0, 1)), ("s2", (0, 1))), budget_s=900))
     obs.append(Ob("C19.c[moasha,nondominated,rf=2,T=3]", "props.c19:h_moasha",
                   dict(priority="nondominated", modes=["min", "max"], T=3, E=4 if quick else 5, W=3, rf=2, max_t=4, fixed_order=True),
                   bounds=dict(T=3, W=3, reports=4 if quick else 5, rf=2, max_t=4, order="round robin"), goals=("end", "stop-at-rung", "continue-at-rung"),
